@@ -155,6 +155,11 @@ class RequestedByModuleName(object):
         return H.observation_key(obs), vs, len(obs['log'])
 
 
+def payload(ext):
+    """What a pre-transformed copy may look like: CR LF and bare CR line ends, a tab, non-ASCII, no final line end."""
+    return 'content of FOO-MIB%s\r\nsecond line\rthird line\n\tcaf\u00e9 \u4e2d' % ext
+
+
 EXTS = ['', '.py', '.pyc', '.json', '.txt', '.mib', '.my', '.PY', '.JSON']
 
 
@@ -181,8 +186,8 @@ class FileBorrowers(object):
         d = tempfile.mkdtemp(prefix='mcC19', dir=base)
         try:
             for i in case['present']:
-                with open(os.path.join(d, 'FOO-MIB' + EXTS[i]), 'w') as f:
-                    f.write('content of FOO-MIB%s' % EXTS[i])
+                with open(os.path.join(d, 'FOO-MIB' + EXTS[i]), 'wb') as f:
+                    f.write(payload(EXTS[i]).encode('utf-8'))
             reader = FileReader(d).setOptions(lowcaseMatching=False)
             if case['b'] == 'py':
                 b = PyFileBorrower(reader, genTexts=case['has'])
@@ -199,12 +204,13 @@ class FileBorrowers(object):
                 return 'foreign', [('C19|file-borrowers|%s|foreign-exception|%s' % (case['b'], type(exc).__name__), repr(case))], 1
             allowed = [None]
             if case['want'] == case['has']:
-                hits = ['content of FOO-MIB%s' % EXTS[i] for i in case['present'] if EXTS[i] in own]
+                hits = [payload(EXTS[i]) for i in case['present'] if EXTS[i] in own]
                 allowed = hits or [None]
             vs = []
             if got not in allowed:
                 vs.append(('C19|file-borrowers|%s|served-%s|flavour-%s' % (
-                    case['b'], 'nothing' if got is None else got.replace('content of FOO-MIB', 'ext:'),
+                    case['b'], 'nothing' if got is None else 'ext:' + got.split('\r\n')[0].replace('content of FOO-MIB', '')
+                    if got.startswith('content of FOO-MIB') and got in [payload(e) for e in EXTS] else 'altered-content',
                     'match' if case['want'] == case['has'] else 'mismatch'), '%r -> %r, allowed %r' % (case, got, allowed)))
             return repr(got), vs, 1
         finally:
